@@ -40,6 +40,7 @@ package premium
 //@ assigns nothing
 
 //@ ghost storeMiss bool
+//@ ghost rateLookupErr bool
 //@ func (*BBoltPremiumStore).GetDefaultRate
 //@ property C27
 //@ sets ghost.storeMiss = (result1 != nil && errors.Is(result1, ErrRateNotFound))
@@ -53,7 +54,8 @@ package premium
 //@ ensures peer-rate: (result1 == nil && uf("hasRate", false, peerID, asset, operation)) ==> (result0 != nil && result0.premiumRate != nil && result0.premiumRate.ppmValue == uf("storedRate", int64(0), peerID, asset, operation))
 //@ ensures global-rate: (result1 == nil && !uf("hasRate", false, peerID, asset, operation) && uf("hasRate", false, "default", asset, operation)) ==> (result0 != nil && result0.premiumRate != nil && result0.premiumRate.ppmValue == uf("storedRate", int64(0), "default", asset, operation))
 //@ ensures builtin-rate: (result1 == nil && !uf("hasRate", false, peerID, asset, operation) && !uf("hasRate", false, "default", asset, operation)) ==> (result0 != nil && result0.premiumRate != nil && result0.premiumRate.ppmValue == DefaultPremiumRate[asset][operation])
-//@ assigns ghost.storeMiss
+//@ sets ghost.rateLookupErr = (result1 != nil)
+//@ assigns ghost.storeMiss, ghost.rateLookupErr
 
 //@ func (*Setting).GetDefaultRate
 //@ property C27
@@ -75,7 +77,7 @@ package premium
 //@ ensures peer-rate: (result1 == nil && uf("hasRate", false, peerID, asset, operation)) ==> result0 == int64(amtSat/1000000)*uf("storedRate", int64(0), peerID, asset, operation) + int64(amtSat%1000000)*uf("storedRate", int64(0), peerID, asset, operation)/1000000
 //@ ensures global-rate: (result1 == nil && !uf("hasRate", false, peerID, asset, operation) && uf("hasRate", false, "default", asset, operation)) ==> result0 == int64(amtSat/1000000)*uf("storedRate", int64(0), "default", asset, operation) + int64(amtSat%1000000)*uf("storedRate", int64(0), "default", asset, operation)/1000000
 //@ ensures builtin-rate: (result1 == nil && !uf("hasRate", false, peerID, asset, operation) && !uf("hasRate", false, "default", asset, operation)) ==> result0 == int64(amtSat/1000000)*DefaultPremiumRate[asset][operation] + int64(amtSat%1000000)*DefaultPremiumRate[asset][operation]/1000000
-//@ assigns ghost.storeMiss
+//@ assigns ghost.storeMiss, ghost.rateLookupErr
 
 // The built-in default table (package initialiser).
 //@ func init
